@@ -5,7 +5,7 @@ behaviour) and what is declined (clauses that quantify over runtime values no st
 reach can bound)."""
 from .properties import prop
 
-prop('C01', ['K1', 'M1', 'M2', 'M3', 'M7', 'T4', 'DC1', 'DC4'],
+prop('C01', ['K1', 'M1', 'M2', 'M3', 'M7', 'T4', 'DC1', 'DC4', 'M8'],
      'Round trip, structural part. Decided from the source: every PyTreeKind switch is exhaustive '
      '(K1); for each of the 9 container kinds the three node producers store the same metadata '
      'shape and take the arity from the container they enumerate (M1); MakeNode reads each shape '
@@ -72,7 +72,7 @@ prop('C05', ['F1', 'F14', 'F2', 'F3', 'F4', 'F11', 'W2', 'K3', 'M7', 'P1', 'P4',
      'A dict rest whose keys come in another order is re-ordered completely by flatten_up_to (W1).',
      ['argument identity', 'functor laws'])
 
-prop('C06', ['H1', 'H4', 'H2', 'H3', 'P5', 'H5', 'M1', 'M5', 'M6', 'S1'],
+prop('C06', ['H1', 'H4', 'H2', 'H3', 'P5', 'H5', 'M1', 'M5', 'M6', 'S1', 'M8'],
      'Equality and hash: every value that feeds HashCombine is compared strictly by EqualTo (H1); '
      'Python objects enter the hash through their Python hash, never their address (H4); '
      'EqualTo strictly compares size, none_is_leaf and per node kind / arity / registration / '
@@ -95,7 +95,7 @@ prop('C07', ['P1', 'P2cxx', 'P2py', 'P3', 'P4', 'W1', 'H3', 'F12', 'F13', 'K3', 
      'flatten_up_to looks custom nodes up in the variant and namespace of the treespec (K2, NS1); prefix_errors walks with the one-level handlers of the Python registry (T4).',
      ['exactness over all pairs', 'offset arithmetic of the re-ordering branch'])
 
-prop('C08', ['I3', 'M5', 'M5b', 'M6', 'F9', 'F12', 'W3', 'T6', 'K1', 'K3', 'M7', 'M1', 'P5', 'K2', 'K4'],
+prop('C08', ['I3', 'M5', 'M5b', 'M6', 'F9', 'F12', 'W3', 'T6', 'K1', 'K3', 'M7', 'M1', 'P5', 'K2', 'K4', 'M8'],
      'Inspection / constructors: entry(i)/child(i) range test and normalisation dominate all uses '
      'of the index (I3); every new treespec gets none_is_leaf and namespace from its source(s) and '
      'passes the sanity check before it escapes (M5, 14 creation sites); a treespec derived from '
